@@ -73,7 +73,7 @@ impl Excitation {
                 self.unvoiced_frame(noise);
             } else {
                 self.pitch_counter += 1.0;
-                let pulse = if self.pitch_counter >= self.pitch_of_curr_point {
+                let pulse = if self.pitch_counter > self.pitch_of_curr_point {
                     self.pitch_counter -= self.pitch_of_curr_point;
                     self.pitch_of_curr_point.sqrt()
                 } else {
@@ -90,7 +90,7 @@ impl Excitation {
             self.white_noise()
         } else {
             self.pitch_counter += 1.0;
-            let x = if self.pitch_counter >= self.pitch_of_curr_point {
+            let x = if self.pitch_counter > self.pitch_of_curr_point {
                 self.pitch_counter -= self.pitch_of_curr_point;
                 self.pitch_of_curr_point.sqrt()
             } else {
